@@ -137,7 +137,7 @@ func init() {
 				directedKind = "metaRead"
 			}
 			if c.replay == nil && directedKind == "unbounded" && i%20 == 7 {
-				directedKind = []string{"varReuse0", "varReuse1", "varReuse2"}[(i/20)%3]
+				directedKind = []string{"varReuse0", "varReuse1", "varReuse2", "varReuse3"}[(i/20)%4]
 			}
 			switch directedKind {
 			case "capVarReuse":
@@ -150,6 +150,8 @@ func init() {
 				prog = g.varReuseProgram(1, true)
 			case "varReuse2":
 				prog = g.varReuseProgram(2, true)
+			case "varReuse3":
+				prog = g.varReuseProgram(3, true)
 			case "meta":
 				prog = g.metaOverrideProgram()
 			case "unbounded":
@@ -341,6 +343,10 @@ func init() {
 			cfg.BadAllot = 10
 			cfg.Origins = i%2 == 0
 			cfg.OriginProb = 2
+			if i%5 == 3 {
+				cfg.Garbage = 500 // several variables hold texts that do not read: which one is reported must not vary
+				cfg.Hostile = 300
+			}
 			var sc Scenario
 			if c.replay != nil {
 				sc = scenarioFromInfo(c.replay)
@@ -457,6 +463,14 @@ func (c *Ctx) c11Case(sc Scenario) {
 		}
 	}
 	o2 := runParsed(p, vars, store, sc.Flag)
+	// the same inputs again, a few more times: the FIRST run that differs from o1 - outcome, postings, error
+	// message (an error chosen by ranging over a Go map changes from run to run) - is the one reported
+	for k := 0; k < 6 && o2.Class == o1.Class && o2.Msg == o1.Msg; k++ {
+		o3 := runParsed(p, vars, numscript.StaticStore{Balances: bal, Meta: meta}, sc.Flag)
+		if o3.Class != o1.Class || o3.Msg != o1.Msg {
+			o2 = o3
+		}
+	}
 	unchanged = unchanged && balancesEqual(bal, sc.Bal) && metaEqual(meta, sc.Meta)
 	// feature flag on / off, on fresh copies
 	on := runParsed(p, vars, numscript.StaticStore{Balances: deepCopyBalances(sc.Bal), Meta: deepCopyMeta(sc.Meta)}, true)
